@@ -3,12 +3,12 @@ import os
 import vf
 
 # the constants of spec/ConnCtrl_MC.tla (kept in one place; the TLC run prints nothing about them)
-DIR = {c: ("out" if c.startswith("o") else "in") for c in ("i1", "i2", "i3", "i4", "i5", "o1", "o2", "o3", "o4")}
-IP = {"i1": "A", "i2": "A", "i3": "B", "i4": "B", "i5": "C", "o1": "D", "o2": "E", "o3": "D", "o4": "A"}
-ADDR = {"i1": "A:1", "i2": "A:2", "i3": "B:1", "i4": "B:2", "i5": "C:1", "o1": "D:9", "o2": "E:9", "o3": "D:9", "o4": "A:9"}
-LISTEN = {"i1": "A:9", "i2": "A:8", "i3": "B:9", "i4": "B:9", "i5": "C:9", "o1": "D:9", "o2": "E:9", "o3": "D:9", "o4": "A:9"}
-KID = {"i1": "k1", "i2": "k2", "i3": "k3", "i4": "k3", "i5": "k1", "o1": "k4", "o2": "k5", "o3": "k4", "o4": "k1"}
-UNIVERSE = {"ConnsQ": ["i1", "i2", "i3", "o1", "o2"], "ConnsQ2": ["i1", "i5", "o1", "o3", "o4"],
+DIR = {c: ("out" if c.startswith("o") else "in") for c in ("i1", "i2", "i3", "i4", "i5", "i6", "o1", "o2", "o3", "o4")}
+IP = {"i6": "A", "i1": "A", "i2": "A", "i3": "B", "i4": "B", "i5": "C", "o1": "D", "o2": "E", "o3": "D", "o4": "A"}
+ADDR = {"i6": "A:1", "i1": "A:1", "i2": "A:2", "i3": "B:1", "i4": "B:2", "i5": "C:1", "o1": "D:9", "o2": "E:9", "o3": "D:9", "o4": "A:9"}
+LISTEN = {"i6": "A:9", "i1": "A:9", "i2": "A:8", "i3": "B:9", "i4": "B:9", "i5": "C:9", "o1": "D:9", "o2": "E:9", "o3": "D:9", "o4": "A:9"}
+KID = {"i6": "k1", "i1": "k1", "i2": "k2", "i3": "k3", "i4": "k3", "i5": "k1", "o1": "k4", "o2": "k5", "o3": "k4", "o4": "k1"}
+UNIVERSE = {"ConnsQ3": ["i1", "i6", "i2", "i3"], "ConnsQ": ["i1", "i2", "i3", "o1", "o2"], "ConnsQ2": ["i1", "i5", "o1", "o3", "o4"],
             "ConnsT": ["i1", "i2", "i3", "i4", "o1", "o2", "o3"], "ConnsT2": ["i1", "i2", "i5", "o1", "o3", "o4"]}
 
 REAL_IP = {"A": "10.0.0.1", "B": "10.0.0.2", "C": "10.0.0.3", "D": "10.0.0.4", "E": "10.0.0.5"}
@@ -179,6 +179,7 @@ def judge(ctx, paths, obs, lim, conns, stats):
         done_steps = 0
         diverged = False
         prevc = {}
+        extra = []
         for o in rec:
             if diverged and not o.get("probe"):
                 break
@@ -202,19 +203,25 @@ def judge(ctx, paths, obs, lim, conns, stats):
                     else:
                         over.append(("ip", {"ip": k[3:], "inbound_from_ip": n, "limit": limit}))
             prevc = cur
+            if o.get("probe"):
+                extra.append(o["tail"] if o.get("tail") else "Save(%s)" % p["steps"][si - 1]["act"]["c"])
             for kind, d in over:
                 cause = classify(p, si, kind, probe_conn=p["steps"][si - 1]["act"]["c"] if o.get("probe") else None)
+                if o.get("tail"):
+                    # live connections above the limit after the real controller admitted an attempt the model refuses
+                    # (e.g. a reconnect from a still recorded remote address: the record then under-counts)
+                    cause = "after-admitting-%s-attempt" % p["steps"][si - 1]["act"]["res"]
                 key = KIND_KEY[kind] + ":" + cause
-                d["schedule"] = sched_text(p, si) + (" +Save(%s)" % p["steps"][si - 1]["act"]["c"] if o.get("probe") else "")
+                d["schedule"] = sched_text(p, si) + "".join(" +" + x for x in extra)
                 stats["overshoots"][key] = stats["overshoots"].get(key, 0) + 1
                 sch = schedule(p, si)
-                if o.get("probe"):
-                    sch.append({"name": "Save", "c": p["steps"][si - 1]["act"]["c"]})
+                for x in extra:
+                    sch.append({"name": x.split("(")[0], "c": x.split("(")[1].rstrip(")")})
                 ctx.violation(key, d, {"limits": {"maxIn": lim[0], "maxPerIp": lim[1], "maxOut": lim[2]},
                                        "conns": {c: {"dir": DIR[c], "ip": IP[c], "addr": ADDR[c], "kid": KID[c]} for c in conns},
                                        "schedule": sch})
             if o.get("probe"):
-                break
+                continue
             if si == 0:
                 continue
             done_steps = si
